@@ -1052,6 +1052,10 @@ func parse_process_expression(tokens []*Token, index int) (AstProcessExpression,
 	if err != nil {
 		return nil, index + fail_index, err
 	}
+	if fail_index < len(exprTokens) {
+		// the expression parser stops at a ')' it did not open
+		return nil, index + fail_index, NewParseError(exprTokens[fail_index], "Unexpected token. Expected the end of the expression.")
+	}
 	return expr, next_index, nil
 }
 
